@@ -1,7 +1,18 @@
 package govc
 
-// Structural obligations: closed caller sets, store sites, single call sites — enumerated over the
-// module's SSA on every run (kinds O5 "stores only in" and O10 "callers" of DESIGN.md).
+import (
+	"fmt"
+	"go/types"
+	"sort"
+	"strings"
+
+	"golang.org/x/tools/go/ssa"
+)
+
+// Structural obligations: closed caller sets, store sites, typed frames — enumerated over the
+// module's SSA on every run (kinds O5 "stores only in" / "writes within" and O10 "callers" of DESIGN.md).
+// They are the frame / ownership conditions of the contracts; a change to the code that adds a write or a
+// caller outside the declared set fails the named obligation.
 
 type StructResult struct {
 	Name   string
@@ -12,12 +23,459 @@ type StructResult struct {
 
 var structuralChecks = map[string]func(w *World) StructResult{}
 
+// RunStructural dispatches on the obligation name:
+//
+//	writes-within:<func key>              the function and everything it calls write only cells owned by the
+//	                                      struct types of its "modifies types" clause
+//	callers:<func key>=<k1>|<k2>|...      every call (or other use) of the function is in one of the listed functions
+//	stores:<Type>.<field>=<k1>|<k2>|...   every store to that field is in one of the listed functions
 func RunStructural(w *World, name string) StructResult {
-	f, ok := structuralChecks[name]
-	if !ok {
-		return StructResult{Name: name, What: "unknown structural check", OK: false, Detail: "not implemented"}
+	if f, ok := structuralChecks[name]; ok {
+		r := f(w)
+		r.Name = name
+		return r
 	}
-	r := f(w)
-	r.Name = name
-	return r
+	switch {
+	case strings.HasPrefix(name, "writes-within:"):
+		return writesWithin(w, name, strings.TrimPrefix(name, "writes-within:"))
+	case strings.HasPrefix(name, "callers:"):
+		spec := strings.TrimPrefix(name, "callers:")
+		i := strings.Index(spec, "=")
+		if i < 0 {
+			break
+		}
+		return callersOf(w, name, spec[:i], strings.Split(spec[i+1:], "|"))
+	case strings.HasPrefix(name, "stores:"):
+		spec := strings.TrimPrefix(name, "stores:")
+		i := strings.Index(spec, "=")
+		if i < 0 {
+			break
+		}
+		return storesOf(w, name, spec[:i], strings.Split(spec[i+1:], "|"))
+	}
+	return StructResult{Name: name, What: "unknown structural check", OK: false, Detail: "not implemented"}
+}
+
+func moduleFuncsAll(w *World) []*ssa.Function {
+	seen := map[*ssa.Function]bool{}
+	var out []*ssa.Function
+	var add func(f *ssa.Function)
+	add = func(f *ssa.Function) {
+		if f == nil || seen[f] || len(f.Blocks) == 0 {
+			return
+		}
+		seen[f] = true
+		out = append(out, f)
+		for _, a := range f.AnonFuncs {
+			add(a)
+		}
+	}
+	for _, f := range w.Funcs {
+		if w.InModule(f) && !strings.Contains(pkgOf(f), "/cmd/") {
+			add(f)
+		}
+	}
+	sort.Slice(out, func(i, j int) bool { return FuncKey(out[i]) < FuncKey(out[j]) })
+	return out
+}
+
+func inSet(set []string, k string) bool {
+	for _, s := range set {
+		s = strings.TrimSpace(s)
+		if s == k || (strings.HasSuffix(s, "*") && strings.HasPrefix(k, strings.TrimSuffix(s, "*"))) {
+			return true
+		}
+	}
+	return false
+}
+
+// the function a closure belongs to, for attributing sites: "f$1" counts as part of "f" when f is listed with a trailing '*'
+func callersOf(w *World, name, callee string, allowed []string) StructResult {
+	res := StructResult{Name: name, What: fmt.Sprintf("every use of %s is in {%s}", callee, strings.Join(allowed, ", ")), OK: true}
+	target := w.Funcs[callee]
+	isIface := target == nil
+	var bad []string
+	found := 0
+	for _, f := range moduleFuncsAll(w) {
+		fk := FuncKey(f)
+		for _, b := range f.Blocks {
+			for _, in := range b.Instrs {
+				hit := false
+				if ci, ok := in.(ssa.CallInstruction); ok {
+					cc := ci.Common()
+					if isIface && cc.IsInvoke() {
+						if ShortName(fmt.Sprintf("(%s).%s", cc.Value.Type().String(), cc.Method.Name())) == callee {
+							hit = true
+						}
+					} else if sc := cc.StaticCallee(); sc != nil && FuncKey(sc) == callee {
+						hit = true
+					}
+				}
+				if !hit && target != nil {
+					// other uses of the function as a value (stored, passed, bound)
+					for _, op := range in.Operands(nil) {
+						if *op == nil {
+							continue
+						}
+						if fv, ok := (*op).(*ssa.Function); ok && FuncKey(fv) == callee {
+							if ci, isCall := in.(ssa.CallInstruction); isCall && ci.Common().Value == fv {
+								continue
+							}
+							hit = true
+						}
+					}
+				}
+				if hit {
+					found++
+					if !inSet(allowed, fk) {
+						bad = append(bad, fmt.Sprintf("%s (%s)", fk, w.Prog.Fset.Position(in.Pos())))
+					}
+				}
+			}
+		}
+	}
+	if len(bad) > 0 {
+		res.OK = false
+		res.Detail = "uses outside the declared set: " + strings.Join(bad, "; ")
+	} else {
+		res.Detail = fmt.Sprintf("%d uses, all in the declared set", found)
+	}
+	return res
+}
+
+func storesOf(w *World, name, field string, allowed []string) StructResult {
+	res := StructResult{Name: name, What: fmt.Sprintf("every store to %s is in {%s}", field, strings.Join(allowed, ", ")), OK: true}
+	i := strings.LastIndex(field, ".")
+	tname, fname := field[:i], field[i+1:]
+	var bad []string
+	found := 0
+	for _, f := range moduleFuncsAll(w) {
+		fk := FuncKey(f)
+		for _, b := range f.Blocks {
+			for _, in := range b.Instrs {
+				st, ok := in.(*ssa.Store)
+				if !ok {
+					continue
+				}
+				for _, fa := range fieldAddrsOf(st.Addr) {
+					stt := fa.X.Type().Underlying().(*types.Pointer).Elem()
+					if ownerName(stt) == tname && stt.Underlying().(*types.Struct).Field(fa.Field).Name() == fname {
+						found++
+						if !inSet(allowed, fk) {
+							bad = append(bad, fmt.Sprintf("%s (%s)", fk, w.Prog.Fset.Position(in.Pos())))
+						}
+					}
+				}
+				// a whole-struct store also writes the field
+				if pt, ok := st.Addr.Type().Underlying().(*types.Pointer); ok && ownerName(pt.Elem()) == tname {
+					if _, isAlloc := st.Addr.(*ssa.Alloc); !isAlloc {
+						found++
+						if !inSet(allowed, fk) {
+							bad = append(bad, fmt.Sprintf("%s (whole value, %s)", fk, w.Prog.Fset.Position(in.Pos())))
+						}
+					}
+				}
+			}
+		}
+	}
+	if len(bad) > 0 {
+		res.OK = false
+		res.Detail = "stores outside the declared set: " + strings.Join(bad, "; ")
+	} else {
+		res.Detail = fmt.Sprintf("%d stores, all in the declared set", found)
+	}
+	return res
+}
+
+func fieldAddrsOf(v ssa.Value) []*ssa.FieldAddr {
+	var out []*ssa.FieldAddr
+	for {
+		switch a := v.(type) {
+		case *ssa.FieldAddr:
+			out = append(out, a)
+			v = a.X
+			continue
+		case *ssa.IndexAddr:
+			v = a.X
+			continue
+		}
+		return out
+	}
+}
+
+// ---- writes-within --------------------------------------------------------------------------------------
+
+func rootOfAddr(v ssa.Value) ssa.Value {
+	for {
+		switch a := v.(type) {
+		case *ssa.FieldAddr:
+			v = a.X
+			continue
+		case *ssa.IndexAddr:
+			if _, isSlice := a.X.Type().Underlying().(*types.Slice); isSlice {
+				return a.X
+			}
+			v = a.X
+			continue
+		}
+		return v
+	}
+}
+
+// struct types whose cells a store of a value of type t at an owner-less address writes
+func nestedStructs(t types.Type, acc map[string]bool) {
+	t = types.Unalias(t)
+	switch u := t.Underlying().(type) {
+	case *types.Struct:
+		acc[ownerName(t)] = true
+		for i := 0; i < u.NumFields(); i++ {
+			nestedStructs(u.Field(i).Type(), acc)
+		}
+	case *types.Array:
+		nestedStructs(u.Elem(), acc)
+	}
+}
+
+func writesWithin(w *World, name, key string) StructResult {
+	res := StructResult{Name: name, OK: true}
+	ct := w.Contracts[key]
+	root := w.Funcs[key]
+	if ct == nil || root == nil || len(ct.ModTypes) == 0 {
+		res.OK = false
+		res.What = "typed frame of " + key
+		res.Detail = "function or its 'modifies types' clause not found"
+		return res
+	}
+	// resolve the declared types
+	allowed := map[string]bool{}
+	var pkg *types.Package
+	if root.Pkg != nil {
+		pkg = root.Pkg.Pkg
+	}
+	sc := &Scope{x: &Exec{w: w, c: NewCtx(w, false)}, pkg: pkg, vars: map[string]Val{}}
+	for _, t := range ct.ModTypes {
+		if strings.HasPrefix(t, "raw:") {
+			allowed[t] = true
+			continue
+		}
+		func() {
+			defer func() { recover() }()
+			if ty, _ := sc.typeByName(t); ty != nil {
+				allowed[ownerName(ty)] = true
+			}
+		}()
+	}
+	var names []string
+	for a := range allowed {
+		names = append(names, a)
+	}
+	sort.Strings(names)
+	res.What = fmt.Sprintf("%s and everything it calls write only cells owned by {%s} (and maps, locals, globals)", key, strings.Join(names, ", "))
+
+	// transitive callees: static calls, closures created inside, closures passed to the function anywhere in the
+	// module (callbacks), interface calls resolved over the module's types
+	seen := map[*ssa.Function]bool{}
+	var work []*ssa.Function
+	push := func(f *ssa.Function) {
+		if f == nil {
+			return
+		}
+		if f.Origin() != nil {
+			f = f.Origin()
+		}
+		if seen[f] || len(f.Blocks) == 0 || !w.InModule(f) {
+			return
+		}
+		seen[f] = true
+		work = append(work, f)
+	}
+	push(root)
+	externalCb := map[*ssa.Function]bool{} // closures handed to root by its callers: their captured variables are the callers' locals
+	// callbacks passed to root
+	for _, f := range moduleFuncsAll(w) {
+		for _, b := range f.Blocks {
+			for _, in := range b.Instrs {
+				ci, ok := in.(ssa.CallInstruction)
+				if !ok {
+					continue
+				}
+				if sc := ci.Common().StaticCallee(); sc != nil && FuncKey(sc) == key {
+					for _, a := range ci.Common().Args {
+						if mc, ok := a.(*ssa.MakeClosure); ok {
+							push(mc.Fn.(*ssa.Function))
+							externalCb[mc.Fn.(*ssa.Function)] = true
+						}
+						if fv, ok := a.(*ssa.Function); ok {
+							push(fv)
+						}
+					}
+				}
+			}
+		}
+	}
+	var bad []string
+	var foreignIface []string
+	stores := 0
+	// phase 1: the explored call graph and its call sites
+	type site struct {
+		caller *ssa.Function
+		args   []ssa.Value
+	}
+	sites := map[*ssa.Function][]site{}
+	var explored []*ssa.Function
+	for len(work) > 0 {
+		f := work[len(work)-1]
+		work = work[:len(work)-1]
+		explored = append(explored, f)
+		for _, a := range f.AnonFuncs {
+			push(a)
+		}
+		for _, b := range f.Blocks {
+			for _, in := range b.Instrs {
+				ci, ok := in.(ssa.CallInstruction)
+				if !ok {
+					continue
+				}
+				cc := ci.Common()
+				if sc := cc.StaticCallee(); sc != nil {
+					g := sc
+					if g.Origin() != nil {
+						g = g.Origin()
+					}
+					sites[g] = append(sites[g], site{f, cc.Args})
+					push(sc)
+					continue
+				}
+				if cc.IsInvoke() {
+					n := 0
+					for _, impl := range implementations(w, cc) {
+						push(impl)
+						sites[impl] = append(sites[impl], site{f, nil})
+						n++
+					}
+					if n == 0 {
+						foreignIface = append(foreignIface, ShortName(fmt.Sprintf("(%s).%s", cc.Value.Type().String(), cc.Method.Name())))
+					}
+				}
+			}
+		}
+	}
+	// a root is local when it is a local allocation, a fresh slice, or a pointer parameter that receives the
+	// address of a local object at every explored call site
+	var isLocalRoot func(f *ssa.Function, r ssa.Value, depth int) bool
+	isLocalRoot = func(f *ssa.Function, r ssa.Value, depth int) bool {
+		switch v := r.(type) {
+		case *ssa.Alloc:
+			return true
+		case *ssa.MakeSlice:
+			return true
+		case *ssa.Call:
+			if b, ok := v.Call.Value.(*ssa.Builtin); ok && b.Name() == "append" {
+				return true
+			}
+		case *ssa.Slice:
+			return isLocalRoot(f, rootOfAddr(v.X), depth)
+		case *ssa.Parameter:
+			if depth > 4 || f == root {
+				return false
+			}
+			idx := -1
+			for i, p := range f.Params {
+				if p == v {
+					idx = i
+				}
+			}
+			ss := sites[f]
+			if idx < 0 || len(ss) == 0 {
+				return false
+			}
+			for _, s := range ss {
+				if s.args == nil || idx >= len(s.args) || !isLocalRoot(s.caller, rootOfAddr(s.args[idx]), depth+1) {
+					return false
+				}
+			}
+			return true
+		}
+		return false
+	}
+	for _, f := range explored {
+		for _, b := range f.Blocks {
+			for _, in := range b.Instrs {
+				switch in := in.(type) {
+				case *ssa.Store:
+					r := rootOfAddr(in.Addr)
+					if isLocalRoot(f, r, 0) {
+						continue
+					}
+					if _, isFV := r.(*ssa.FreeVar); isFV && !externalCb[f] {
+						continue // a variable of an enclosing function that is itself inside the explored code
+					}
+					if g, isGlobal := r.(*ssa.Global); isGlobal {
+						// a package-level variable: owner "global:<name>" unless the store goes to a struct field of it
+						stores++
+						o := "global:" + ShortName(g.String())
+						if !allowed[o] && !allowed["globals"] {
+							bad = append(bad, fmt.Sprintf("%s writes %s (%s)", FuncKey(f), o, w.Prog.Fset.Position(in.Pos())))
+						}
+						continue
+					}
+					stores++
+					// (a store through a captured variable has owner "local" or the variable's struct type: the
+					// enclosing function's locals are preserved by a typed havoc only if no callee does this)
+					owners := map[string]bool{}
+					if o := ownerOfAddr(in.Addr); o != "" {
+						owners[o] = true
+					}
+					nestedStructs(in.Val.Type(), owners)
+					if len(owners) == 0 {
+						owners["raw:"+ownerName(in.Val.Type())] = true
+					}
+					for o := range owners {
+						if !allowed[o] {
+							bad = append(bad, fmt.Sprintf("%s writes a cell owned by %s (%s)", FuncKey(f), o, w.Prog.Fset.Position(in.Pos())))
+						}
+					}
+				}
+			}
+		}
+	}
+	if len(bad) > 0 {
+		res.OK = false
+		res.Detail = strings.Join(dedup(bad), "; ")
+	} else {
+		res.Detail = fmt.Sprintf("%d functions, %d stores to non-local memory, all within the declared types; interface calls without a module implementation (assumed to respect the frame): %s", len(seen), stores, strings.Join(dedup(foreignIface), ", "))
+	}
+	return res
+}
+
+// module methods that an interface call may dispatch to
+func implementations(w *World, cc *ssa.CallCommon) []*ssa.Function {
+	iface, ok := cc.Value.Type().Underlying().(*types.Interface)
+	if !ok {
+		return nil
+	}
+	var out []*ssa.Function
+	for _, p := range w.Prog.AllPackages() {
+		if !strings.HasPrefix(p.Pkg.Path(), ModPath) {
+			continue
+		}
+		for _, m := range p.Members {
+			tn, ok := m.(*ssa.Type)
+			if !ok {
+				continue
+			}
+			for _, t := range []types.Type{tn.Type(), types.NewPointer(tn.Type())} {
+				if types.IsInterface(t) || !types.Implements(t, iface) {
+					continue
+				}
+				ms := w.Prog.MethodSets.MethodSet(t)
+				if sel := ms.Lookup(cc.Method.Pkg(), cc.Method.Name()); sel != nil {
+					if fn := w.Prog.MethodValue(sel); fn != nil {
+						out = append(out, fn)
+					}
+				}
+			}
+		}
+	}
+	return out
 }
